@@ -42,6 +42,7 @@ RULE = ("graphs over every node kind (pvf/zoo.py).  For each graph g: the "
         "node tagged alike, and its old key again once the tag is removed.  "
         "non-trivial = a component below the root was changed or the key "
         "crossed a process; distinct by (program, node, field)")
+RULE += '  Round-4 addition: every dtype-valued field is also mutated to the same type in the other byte order (key must change).'
 ASSUMPTIONS = [
     "creation-traceback tagging at its default (off)",
     "a changed copy is made with dataclasses.replace (pvf/reflect.py:rebuild)",
